@@ -115,4 +115,23 @@ CHECKS = {
         "note": "Trusted: interpreter (float/exact), finite alphabets as listed in the evidence.",
         "technique": "full product lattices over value alphabets, exact basis enumeration of filter impulse responses, BFS over buffer histories",
     },
+    "C15": {
+        "text": "Exhaustive within bounds on the model of every generated kernel (the captured assignment collection + iteration region, bound to the generated code by conformance replay): all permutations of 4-6 cell updates along each axis and of the 2^d block executed on real bytes must give one final state; two threads owning two cells each with every cell update split into read and write steps - all 70 interleavings x all 24 assignments per axis - must equal the sequential result; all pairs of cell updates must commute. A call-site monitor inspects every kernel call of real simulator steps over the configuration lattice (and of the interaction path) for outputs overlapping neighbour-read or differently indexed inputs. Spreading order is decided with power-of-two weights and forces 2^60, 1, -2^60 for which every accumulation order yields different bytes, under NUMBA_NUM_THREADS 1 and 4; no closure may be compiled parallel. Negative controls (loop-carried kernel, aliased call) must be reported on every run.",
+        "design_ref": "DESIGN.md section 5 C15, section 4.4",
+        "note": "Schedules are explored on the model at cell-update granularity; hardware memory ordering, vectorisation width and false sharing are not modelled - they cannot change results if the dependence structure checked here holds (argument, not observation). Real OpenMP runs are a supplementary thorough-tier pass only.",
+        "technique": "stateless schedule exploration (all iteration orders, all read/write interleavings of two threads, pairwise commutation) on captured kernel models + call-site aliasing monitor on the real code",
+    },
+    "C18": {
+        "text": "Exhaustive within bounds: for coupled flow-body runs of K steps (NS2D + moving/rotating rigid cylinder; NS3D + sphere with filter / fast-diagonalisation variants) following the upstream loop, EVERY checkpoint index 0..K is written through the IO layer, loaded into freshly constructed simulator / body / interaction objects, scratch arrays are poisoned (none / all / each single buffer) and the run is continued; every later step is compared with the uninterrupted trajectory. The restart helper is driven over all subsets of checkpoint names, every creation order of larger name sets, and equal/different body times.",
+        "design_ref": "DESIGN.md section 5 C18, section 4.5",
+        "note": "Body arrays are copied by the harness (PyElastica's restart is exercised only inside the restart helper on a rigid-cylinder system). Prescribed rigid-body kinematics; tolerance 4096 eps because a fresh FFTW plan may round differently.",
+        "technique": "crash/resume-point enumeration (every checkpoint index x scratch-poisoning subsets) with a differential oracle against the uninterrupted run",
+    },
+    "C02": {
+        "category": "exploration",
+        "text": "Bounded enumeration, weaker level than the other checks: the full product lattice (thorough tier; one axis value each in the quick tier) of refinement studies (Lamb-Oseen vortex in a free stream, Gaussian blob in uniform flow in 2-D and 3-D) over resolutions, centre, strength, viscosity, free-stream direction and precision against closed-form solutions; observed order >= 0.85 between successive resolutions and absolute error below bounds calibrated on the unchanged tree with a factor-2 margin. Convergence under refinement is an asymptotic statement that no bounded enumeration decides; the check is kept because its oracle is independent of any transcription of the discretisation.",
+        "design_ref": "DESIGN.md section 5 C02",
+        "note": "The lattice of (problem, resolution ladder, centre, strength, viscosity, direction, precision) is enumerated completely, not sampled, but the property is asymptotic: nothing is claimed beyond the finest enumerated grid, hence category exploration. Interpreter back end.",
+        "technique": "exhaustive enumeration of a finite product lattice of refinement studies against analytic solutions (bounded; the asymptotic part of the claim is outside any bounded enumeration)",
+    },
 }
